@@ -91,6 +91,24 @@ def check_pass(ctx, fmt, n, seed, drv, top="random"):
         if got.shape != wantv.shape or not np.allclose(got, wantv, rtol=0, atol=1e-9):
             ctx.violation("%s: telemetry %s differs from the mean of the designated words (first line %s vs %s)" % (
                 fmt, nm, np.asarray(got)[0], wantv[0]), payload, cls="telemetry:%s:%s" % (fam, nm))
+    # counts and telemetry do not depend on earlier work on the same reader: ask again after a calibration
+    # (which works in place on the arrays it was given)
+    import warnings as _w
+    with _w.catch_warnings():
+        _w.simplefilter("ignore")
+        try:
+            r.get_calibrated_channels()
+        except Exception as e:       # calibration of arbitrary counts may fail for reasons outside this property
+            ctx.notes.append("calibration raised %r in the repeat-call probe" % (e,))
+    counts2 = np.asarray(r.get_counts())
+    prt2, ict2, space2 = [np.asarray(x) for x in r.get_telemetry()]
+    if counts2.shape != want.shape or not np.array_equal(counts2, want):
+        ctx.violation("%s: get_counts() after get_calibrated_channels() on the same reader no longer returns the format's "
+                      "10-bit samples" % fmt, payload, cls="counts-after-calibration:%s" % fam)
+    for nm, got, wantv in (("prt", prt2, want_prt), ("ict", ict2, want_ict), ("space", space2, want_space)):
+        if got.shape != wantv.shape or not np.allclose(got, wantv, rtol=0, atol=1e-9):
+            ctx.violation("%s: telemetry %s after a calibration differs from the mean of the designated words" % (fmt, nm),
+                          payload, cls="telemetry-after-calibration:%s:%s" % (fam, nm))
     # dataset variables agree with the arrays
     for nm, arr in (("channels", counts), ("prt_counts", prt_i), ("ict_counts", ict_i), ("space_counts", space_i)):
         if not np.array_equal(np.asarray(ds[nm].data), arr):
